@@ -100,6 +100,10 @@ ZERO_OK = {   # which exact-zero rows a filter accepts after sample 0 without ra
 
 def history(hseed, N, kind):
     """deterministic sensor history from a seed; thin regions by `kind`"""
+    if kind.startswith('exact|'):
+        # structured thin region: the same exactly representable sample in every row, "exact|ax,ay,az|mx,my,mz|gx,gy,gz"
+        a, m, g = ([float(x) for x in part.split(',')] for part in kind.split('|')[1:4])
+        return np.tile(np.array(g), (N, 1)), np.tile(np.array(a), (N, 1)), np.tile(np.array(m), (N, 1))
     r = np.random.default_rng(int(hseed))
     gyr = r.normal(size=(N, 3)) * (3.0 if kind == 'fast' else 0.3)
     acc = r.normal(size=(N, 3)) * 0.5 + np.array([0.0, 0.0, 9.81])
@@ -276,7 +280,27 @@ def o_stream(inp):
         kw0 = _kw(inp)
         hist0 = _hist_of(inp)
         seed = inp.get('npseed', 0)
-        B = _batch(name, arch, hist0, kw0, seed)
+        try:
+            B = _batch(name, arch, hist0, kw0, seed)
+        except _RngAdvanced:
+            raise
+        except Exception as eb:
+            if not inp.get('outcomes'):
+                raise
+            # structured singular configuration (antipodal start, inverted sensor): the constructor rejects it; the streamed run from the
+            # SAME initial attitude (the q0 keyword) must reject it with the same exception class -- then both entry points behave alike
+            if 'q0' not in kw0 or (name, arch) in Q0_IGNORED:
+                return None
+            try:
+                q0n = np.array(kw0['q0'], float) / np.linalg.norm(kw0['q0'])
+                _stream(name, arch, hist0, kw0, q0n, seed)
+            except _RngAdvanced:
+                raise
+            except Exception as es:
+                if type(es) is type(eb):
+                    return None
+                return {'tag': f'{entry}/batch-raises-{type(eb).__name__}-stream-raises-{type(es).__name__}', 'observed': str(es)[:120]}
+            return {'tag': f'{entry}/batch-raises-{type(eb).__name__}-stream-accepts', 'observed': str(eb)[:160]}
         if B.shape != (inp['N'], 4):
             return {'tag': f'{entry}/batch-shape', 'observed': list(B.shape), 'expected': [inp['N'], 4]}
         if _changed(hist0, _hist_of(inp)):
@@ -333,7 +357,14 @@ def o_repeat(inp):
         kw = _kw(inp)
         hist = _hist_of(inp)
         seed = inp.get('npseed', 0)
-        B1 = _batch(name, arch, hist, kw, seed)
+        try:
+            B1 = _batch(name, arch, hist, kw, seed)
+        except _RngAdvanced:
+            raise
+        except Exception:
+            if inp.get('outcomes'):
+                return None               # singular structured configuration rejected by the constructor: covered by the stream oracle
+            raise
         other = inp.get('other')
         if other:                                        # somebody else's run in between
             _batch(other[0], other[1], history(inp['hseed'] + 1, inp['N'], 'generic'), {}, seed + 1)
@@ -381,7 +412,14 @@ def o_interleave(inp):
             kw = _kw(X)
             Y = A if (inp.get('same_data') and k == 1) else X        # same_data: both instances consume ONE recording
             hist = history(Y['hseed'], Y['N'], Y.get('kind', 'generic'))
-            q0 = _batch(X['filter'], X['arch'], hist, kw, 0)[0]
+            try:
+                q0 = _batch(X['filter'], X['arch'], hist, kw, 0)[0]
+            except _RngAdvanced:
+                raise
+            except Exception:
+                if inp.get('outcomes'):
+                    return None
+                raise
             pristine.append(hist)
             live = specs[0][2] if (inp.get('same_data') and k == 1) else tuple(x.copy() for x in hist)
             specs.append((X['filter'], X['arch'], live, kw, q0))
@@ -876,6 +914,13 @@ def _same_any(a, b):
 
 # ------------------------------------------------------------------------------------------ search
 NS = [2, 3, 4, 5, 7, 12, 40]
+Q0_IGNORED = {('Madgwick', 'MARG'), ('Fourati', 'MARG')}      # constructors that always estimate their first row
+# structured thin regions (all exactly representable): identity and the half-turns about the axes, both signs
+EXACT_Q0 = [[1.0, 0.0, 0.0, 0.0], [0.0, 1.0, 0.0, 0.0], [0.0, -1.0, 0.0, 0.0], [0.0, 0.0, 1.0, 0.0], [0.0, 0.0, -1.0, 0.0],
+            [0.0, 0.0, 0.0, 1.0], [0.0, 0.0, 0.0, -1.0]]
+EXACT_ACC = [[0.0, 0.0, 9.8125], [0.0, 0.0, -9.8125], [9.8125, 0.0, 0.0]]                 # level, inverted, on its side
+EXACT_MAG = [[20.0, 0.0, 40.0], [0.0, 30.0, 0.0], [30.0, 0.0, 0.0]]                       # dipping north, east, north
+EXACT_GYR = [[0.0, 0.0, 0.0], [0.0, 0.0, 0.5], [0.5, 0.0, 0.0], [0.0, -0.5, 0.0]]         # none, about each axis
 
 
 # int64 sensor arrays are rejected (UFuncTypeError in an in-place float division) by ecompass/am2q (initial row of the MARG
@@ -949,6 +994,30 @@ def search(ctx, scale):
                        'hseed': int(rng.integers(1 << 30)), 'N': NS[int(rng.integers(1, 6))], 'kind': ('generic', 'zero' + ZERO_OK[name], 'fast')[(hi + rep) % 3],
                        'npseed': int(rng.integers(1 << 16))}
                 ctx.check('dt', inp, o_dt(inp), nontrivial_key=('dt', name, arch, hz, rep))
+    # structured starts: exactly antipodal / axis-aligned initial attitudes with level, inverted and axis-aligned exact samples
+    for ci, (name, arch) in enumerate(cfgs):
+        for qi, q0 in enumerate(EXACT_Q0):
+            for ai, a in enumerate(EXACT_ACC):
+                gs = EXACT_GYR if scale > 1 else [EXACT_GYR[0], EXACT_GYR[1 + (qi + ai + ci) % (len(EXACT_GYR) - 1)]]
+                for gi, g in enumerate(gs):
+                    ms = [m for m in EXACT_MAG if abs(float(np.dot(np.array(m) / np.linalg.norm(m), np.array(a) / np.linalg.norm(a)))) < 0.999]
+                    ms = ms if scale > 1 else [ms[(qi + ai + gi) % len(ms)]]
+                    for m in ms:
+                        kind = 'exact|' + '|'.join(','.join(repr(float(x)) for x in v) for v in (a, m, g))
+                        kw = {'q0': q0}
+                        if name == 'Madgwick':
+                            kw['gain'] = 0.041
+                        inp = {'filter': name, 'arch': arch, 'kw': kw, 'hseed': 0, 'N': 3 + (qi + gi) % 2, 'kind': kind, 'npseed': int(rng.integers(1 << 16)), 'outcomes': True}
+                        ctx.check('stream', inp, o_stream(inp), nontrivial_key=('exact', name, arch, qi, ai, tuple(g), tuple(m)))
+            a = EXACT_ACC[qi % len(EXACT_ACC)]
+            kind = 'exact|' + '|'.join(','.join(repr(float(x)) for x in v) for v in (a, EXACT_MAG[0], EXACT_GYR[1 + qi % 3]))
+            kw = {'q0': q0, **({'gain': 0.041} if name == 'Madgwick' else {})}
+            inp = {'filter': name, 'arch': arch, 'kw': kw, 'hseed': 0, 'N': 4, 'kind': kind, 'npseed': int(rng.integers(1 << 16)), 'reps': 2, 'outcomes': True}
+            ctx.check('repeat', inp, o_repeat(inp), nontrivial_key=('exact-rep', name, arch, qi))
+            inp = {'A': {'filter': name, 'arch': arch, 'kw': kw, 'hseed': 0, 'N': 4, 'kind': kind},
+                   'B': {'filter': name, 'arch': arch, 'kw': {}, 'hseed': int(rng.integers(1 << 30)), 'N': 4, 'kind': 'generic'},
+                   'iseed': int(rng.integers(1 << 30)), 'same_data': False, 'outcomes': True}
+            ctx.check('interleave', inp, o_interleave(inp), nontrivial_key=('exact-il', name, arch, qi))
     # EVERY constructor keyword (inspect.signature + the names looked up in **kwargs) with a non-default value, one at a time and all
     # together: batch vs stream built with the same keywords, repeat, and an interleaving against a default instance of the class
     for (name, arch) in cfgs:
